@@ -87,6 +87,82 @@ def _held_window(rng, ops):
         ops.append("probe ready")
 
 
+# atomic turns of one thread operation run alone (upper bound), used only to size schedules
+def _tsteps(prog, kind):
+    fb = 11 if kind == "vegas" else 2
+    n = 0
+    for ch in prog:
+        n += {"A": 7, "E": 7, "P": 7, "C": 5 + fb, "D": 2, "I": 2, "S": 1 + fb, "F": 3, "L": 2}.get(ch, 0)
+    return n
+
+
+def _thread_round(rng, ops, kind):
+    """clones of the service on 2-3 OS threads under a schedule of atomic-operation turns (the service's own atomics are
+    hooked: `in_flight` fetch_add / fetch_sub, the loads of `poll_ready`, the `current_limit` mirror), then reads"""
+    nt = rng.choice([2, 2, 2, 3])
+    shape = rng.random()
+    progs = []
+    if shape < 0.4:
+        # every thread starts k calls, then ends them (complete / fail / panic / drop): releases of different threads overlap
+        for _ in range(nt):
+            k = rng.choice([1, 1, 2, 3])
+            acq = "".join(rng.choice(["A", "A", "A", "E", "P"]) for _ in range(k))
+            rel = "".join(rng.choice(["C", "C", "C", "D"]) for _ in range(k))
+            progs.append(acq + rel + ("I" if rng.random() < 0.3 else ""))
+    else:
+        for _ in range(nt):
+            n = rng.choice([0, 1, 2, 3, 4, 5, 7])
+            p = ""
+            for _ in range(n):
+                r = rng.random()
+                if r < 0.32:
+                    p += "A"
+                elif r < 0.42:
+                    p += "E"
+                elif r < 0.47:
+                    p += "P"
+                elif r < 0.72:
+                    p += "C"
+                elif r < 0.82:
+                    p += "D"
+                elif r < 0.90:
+                    p += "I"
+                else:
+                    p += rng.choice(["S9", "S7", "F", "L", "L"])
+            progs.append(p)
+    for t, p in enumerate(progs):
+        ops.append("manual thread t=%d prog=%s" % (t, p))
+    total = sum(_tsteps(p, kind) for p in progs)
+    sched = []
+    mode = rng.random()
+    if shape < 0.4 and rng.random() < 0.7:
+        # the acquisitions one thread after the other, then turn by turn
+        for t, p in enumerate(progs):
+            k = sum(1 for ch in p if ch in "AEP")
+            sched += [t] * (7 * k)
+        rest = total - len(sched) + 4
+        if mode < 0.6:
+            sched += [i % nt for i in range(max(0, rest))]
+        else:
+            sched += [rng.randrange(nt) for _ in range(max(0, rest))]
+    else:
+        ln = rng.choice([0, total // 2, total, total + 3, rng.randint(0, total + 2)])
+        for i in range(ln):
+            if rng.random() < 0.03:
+                sched.append(nt + rng.choice([0, 1]))       # a turn for a thread that does not exist
+            elif mode < 0.25:
+                sched.append(i % nt)                        # turn by turn
+            elif mode < 0.5 and sched and rng.random() < 0.6:
+                sched.append(sched[-1])                     # runs of one thread
+            else:
+                sched.append(rng.randrange(nt))
+    ops.append("manual sched s=%s" % ",".join(str(x) for x in sched))
+    ops.append("probe in_flight")
+    if rng.random() < 0.6:
+        ops.append("probe limit")
+        ops.append("probe ready")
+
+
 def gen_service(rng, tier):
     kind, h = _cfg(rng, True)
     ops = []
@@ -99,11 +175,25 @@ def gen_service(rng, tier):
         hw = h.split()
         hw = [("min=%d" % lim) if w.startswith("min=") else ("max=%d" % lim) if w.startswith("max=") else w for w in hw]
         h = " ".join(hw)
+    # persistent handles over an inner service that is not ready at once: `manual ready h= rdy=r|p|e` (one poll_ready,
+    # the inner answer scripted per poll), `arrive … h=<h>` (the caller uses that handle), in none / some / many steps
+    hp = rng.choice([0.0, 0.0, 0.12, 0.25, 0.4])
+    # rounds of OS threads using clones of the service under a schedule of atomic-operation turns
+    tp = rng.choice([0.0, 0.0, 0.0, 0.05, 0.1])
+    if tp > 0 and rng.random() < 0.6:
+        # room for several calls per thread
+        mn = rng.choice([1, 1, 2])
+        mx = mn + rng.choice([3, 5, 8])
+        hw = h.split()
+        hw = [("min=%d" % mn) if w.startswith("min=") else ("max=%d" % mx) if w.startswith("max=") else
+              ("initial=%d" % rng.choice([mx, mx, (mn + mx) // 2])) if w.startswith("initial=") else w for w in hw]
+        h = " ".join(hw)
     if kind == "vegas" and rng.random() < 0.8:
         n = rng.choice([8, 9, 9, 10, 11])
         ops.append("manual warm prog=%s" % "".join("S%d" % rng.choice([7, 7, 7, 4, 5]) for _ in range(n)))
     elif rng.random() < 0.2:
         ops.append("manual warm prog=%s" % _prog(rng, rng.randint(1, 3), kind))
+    waiting = []          # handles whose last scripted inner answer was `pending`
     ncall = rng.randint(2, 12)
     pending = list(range(1, ncall + 1))
     arrived, checked = [], []
@@ -116,6 +206,37 @@ def gen_service(rng, tier):
 
     for _ in range(rng.randint(8, 45)):
         r = rng.random()
+        if hp > 0 and rng.random() < hp:
+            # a handle is polled for readiness (again); or a caller arrives through a handle
+            hd = rng.choice(waiting) if waiting and rng.random() < 0.6 else rng.randint(1, 3)
+            if pending and rng.random() < 0.35:
+                c = pending.pop(0)
+                a = rng.choice(["r", "r", "r", "p", "e"])
+                k = kp()
+                if rng.random() < 0.7:
+                    ops.append("probe limit")
+                lat = rng.choice([0, 1, 3, 10, rng.randint(0, 12)])
+                ops.append("arrive %d inner=%d:%s h=%d%s%s" % (c, lat, pick_outcome(rng, 6, 2, 1, 1), hd,
+                                                             "" if a == "r" and rng.random() < 0.5 else " rdy=" + a, k))
+                arrived.append(c)
+                if k:
+                    keepers.append(c)
+                marks.append(now + lat)
+                if hd in waiting:
+                    waiting.remove(hd)
+            else:
+                a = rng.choice(["r", "r", "p", "p", "e"]) if hd not in waiting else rng.choice(["r", "r", "r", "p"])
+                if rng.random() < 0.7:
+                    ops.append("probe limit")
+                ops.append("manual ready h=%d rdy=%s" % (hd, a))
+                if a == "p" and hd not in waiting:
+                    waiting.append(hd)
+                if a != "p" and hd in waiting:
+                    waiting.remove(hd)
+            continue
+        if tp > 0 and rng.random() < tp:
+            _thread_round(rng, ops, kind)
+            continue
         if pending and (r < 0.30 or not arrived):
             c = pending.pop(0)
             if rng.random() < 0.12:
@@ -193,11 +314,16 @@ def gen_service(rng, tier):
         # finished futures are still held by their callers: they do not count, they do not block
         ops.append("probe limit")
         ops.append("probe ready")
+    if tp > 0 and rng.random() < 0.5:
+        _thread_round(rng, ops, kind)
     if rng.random() < 0.85:
         ops.append("dropall")
         ops.append("probe in_flight")
         ops.append("probe limit")
         ops.append("probe ready")
+        if tp > 0 and rng.random() < 0.5:
+            # nothing else is running: after the round the limiter must report zero in flight
+            _thread_round(rng, ops, kind)
         if keepers and rng.random() < 0.4:
             for c in keepers:
                 ops.append("release %d" % c)
@@ -250,6 +376,18 @@ def _keepers(case):
     return ks
 
 
+def _via_handle(case):
+    """{caller: handle} for the callers that use a persistent handle (`arrive c … h=<h>`)"""
+    via = {}
+    for o in case["ops"]:
+        w = o.split()
+        if len(w) > 1 and w[0] == "arrive":
+            for x in w[2:]:
+                if x.startswith("h=") and x[2:].isdigit() and int(x[2:]) > 0:
+                    via[w[1]] = x[2:]
+    return via
+
+
 def _releases(meta):
     """{line index: [callers whose finished future was dropped just before that line]}"""
     rel = {}
@@ -273,7 +411,7 @@ class _Held:
             self.held.discard(c)
 
     def after(self, w):
-        if w and w[0] == "result" and w[1] in self.keepers and w[2] not in ("panic", "notready") and not w[2].startswith("notready"):
+        if w and w[0] == "result" and w[1] in self.keepers and w[2] != "panic" and not w[2].startswith("notready"):
             self.held.add(w[1])
 
     def note(self):
@@ -304,8 +442,11 @@ def mon_bounds(case, lines, meta):
     mn, mx = int(cfg.get("min", "1")), int(cfg.get("max", "100"))
     if mn > mx:
         return None
+    svc = _is_service(case)
     for i, l in enumerate(lines):
         _, w = tparse(l)
+        if svc and w and w[0] == "th":
+            continue       # a service thread's outputs mix in_flight() reads and refusals with limit() reads
         for v in _observed_limits(w):
             if not v.isdigit() or not (mn <= int(v) <= mx):
                 return "line %d: observed limit %s outside [min_limit=%d, max_limit=%d] (%s)" % (i, v, mn, mx, l)
@@ -320,6 +461,7 @@ def mon_inflight(case, lines, meta):
         return None
     live = set()
     hd = _Held(case, meta)
+    rounds = 0
     for i, l in enumerate(lines):
         _, w = tparse(l)
         hd.before(i)
@@ -330,21 +472,30 @@ def mon_inflight(case, lines, meta):
             live.add(w[2])
         elif w[0] in ("inner_done", "inner_drop"):
             live.discard(w[2])
+        elif w[0] == "th" and w[1] == "0":
+            rounds += 1
         elif w[0] == "probe" and w[1] == "in_flight":
             if not w[3].isdigit() or int(w[3]) != len(live):
-                return "line %d: in_flight() = %s but %d inner calls are started and not finished/dropped%s%s" % (
-                    i, w[3], len(live), " (quiescent)" if not live else "", hd.note())
+                return "line %d: in_flight() = %s but %d inner calls are started and not finished/dropped%s%s%s" % (
+                    i, w[3], len(live), " (quiescent)" if not live else "", hd.note(),
+                    " [after %d round(s) of threads using clones of the limiter: every call they started has completed, "
+                    "failed, panicked or been dropped]" % rounds if rounds else "")
     return None
 
 
 def mon_ready(case, lines, meta):
     """a readiness check is refused iff at least limit calls are in flight at that step (limit = the value
-    probed since the last feedback to the algorithm); a refusal always fires the waker"""
+    probed since the last feedback to the algorithm); a refusal always fires the waker. Every `poll_ready` of a
+    persistent handle is such a check — also when an earlier poll of the same handle was only waiting for the inner
+    service: `Ready` with limit calls in flight admits a caller that checked readiness at the limit.
+    (Rounds of threads are not judged here: check-then-call of concurrent callers is not atomic.)"""
     if not _is_service(case):
         return None
     live = set()
     limit = None           # last probed limit, valid until the algorithm gets feedback
     prechecked = set()
+    via = _via_handle(case)
+    hready = set()         # handles whose most recent poll_ready answered Ready (judged at that poll)
     hd = _Held(case, meta)
     for i, l in enumerate(lines):
         _, w = tparse(l)
@@ -354,10 +505,14 @@ def mon_ready(case, lines, meta):
         hd.after(w)
         if "lost-wakeup" in l:
             return "line %d: poll_ready returned Pending without waking the task (%s)" % (i, l)
-        if w[0] == "inner_call":
+        if w[0] in ("step", "skip", "th"):
+            limit = None       # inside / after a round of threads
+        elif w[0] == "inner_call":
             c = w[1]
             if c in prechecked:
                 prechecked.discard(c)
+            elif c in via and via[c] in hready:
+                hready.discard(via[c])
             elif limit is not None and len(live) >= limit:
                 return "line %d: caller %s admitted by a readiness check with %d calls in flight, limit %d" % (i, c, len(live), limit)
             live.add(w[2])
@@ -371,14 +526,28 @@ def mon_ready(case, lines, meta):
             limit = None
         elif w[0] == "probe" and w[1] == "limit":
             limit = int(w[3]) if w[3].isdigit() else None
-        elif w[0] == "result" and w[2] == "notready":
-            if limit is not None and len(live) < limit:
+        elif w[0] == "result" and w[2].startswith("notready"):
+            if w[1] in via:
+                hready.discard(via[w[1]])
+            if w[2] == "notready" and limit is not None and len(live) < limit:
                 return "line %d: caller %s refused readiness with %d calls in flight, limit %d%s" % (i, w[1], len(live), limit, hd.note())
         elif w[0] == "check":
             if w[2] == "ready":
                 prechecked.add(w[1])
             if limit is not None and (w[2] == "ready") != (len(live) < limit):
                 return "line %d: ahead-of-time readiness check of %s answered %s with %d calls in flight, limit %d%s" % (i, w[1], w[2], len(live), limit, hd.note())
+        elif w[0] == "ready":
+            # one poll_ready of the persistent handle w[1]
+            if w[2] == "ready":
+                hready.add(w[1])
+                if limit is not None and len(live) >= limit:
+                    return ("line %d: poll_ready of handle %s answered Ready with %d calls in flight, limit %d: a caller that "
+                            "checked readiness with limit calls already in flight is admitted" % (i, w[1], len(live), limit))
+            else:
+                hready.discard(w[1])
+                if w[2] == "refused" and limit is not None and len(live) < limit:
+                    return "line %d: poll_ready of handle %s refused for capacity with %d calls in flight, limit %d%s" % (
+                        i, w[1], len(live), limit, hd.note())
         elif w[0] == "probe" and w[1] == "ready":
             if limit is not None and (w[3] == "1") != (len(live) < limit):
                 return "line %d: probe caller readiness = %s with %d calls in flight, limit %d%s" % (i, w[3], len(live), limit, hd.note())
@@ -417,8 +586,55 @@ def transitions(case, lines, meta=None):
     live = set()
     last_limit = None
     hd = _Held(case, meta)
+    via = _via_handle(case)
+    hpend = set()          # handles whose most recent poll_ready was answered `pending` by the inner service
+    cur_t = None           # thread whose turn it is (inside a round of threads)
+    relp = set()           # threads between "end of the inner call logged" and the release of the guard
+    in_round = False
     for i, l in enumerate(lines):
         _, w = tparse(l)
+        if w and w[0] in ("step", "skip"):
+            tags.append("T:" + w[0])
+            if w[0] == "step":
+                if cur_t is not None and cur_t != w[1]:
+                    tags.append("T:switch")
+                cur_t = w[1]
+                relp.discard(w[1])
+            in_round = True
+        elif w and w[0] == "th":
+            if "x" in w[-1].split(","):
+                tags.append("T:refused")
+            cur_t = "main"
+        elif w and w[0] == "limit" and in_round:
+            in_round, cur_t = False, None
+            relp.clear()
+        elif w and in_round and w[0] in ("inner_done", "inner_drop"):
+            if cur_t == "main":
+                tags.append("T:leftover-dropped")
+            elif cur_t is not None:
+                if relp - {cur_t}:
+                    tags.append("T:two-releases-pending")
+                relp.add(cur_t)
+        if w and w[0] == "ready":
+            tags.append("A:handle-" + w[2])
+            if w[1] in hpend and w[2] in ("ready", "refused"):
+                tags.append("A:handle-%s-after-inner-pending" % w[2])
+            if w[2] == "pending":
+                hpend.add(w[1])
+            else:
+                hpend.discard(w[1])
+        if w and w[0] == "inner_call" and w[1] in via:
+            tags.append("A:call-through-handle")
+            if via[w[1]] in hpend:
+                tags.append("A:handle-ready-after-inner-pending")
+            hpend.discard(via[w[1]])
+        if w and w[0] == "result" and w[2].startswith("notready") and w[1] in via:
+            if via[w[1]] in hpend and w[2] == "notready":
+                tags.append("A:handle-refused-after-inner-pending")
+            if w[2] == "notready-inner":
+                hpend.add(via[w[1]])
+            else:
+                hpend.discard(via[w[1]])
         for c in hd.rel.get(i, []):
             if c in hd.held:
                 tags.append("A:release-held")
@@ -448,7 +664,7 @@ def transitions(case, lines, meta=None):
             live.discard(w[2])
             tags.append("A:dropped-running")
         elif w[0] == "result":
-            tags.append("A:result-" + ("notready" if w[2] == "notready" else "panic" if w[2] == "panic" else w[2].split(":")[0]))
+            tags.append("A:result-" + (w[2] if w[2].startswith("notready") else "panic" if w[2] == "panic" else w[2].split(":")[0]))
         elif w[0] == "check":
             tags.append("A:check-" + w[2])
         elif w[0] == "probe" and w[1] == "ready":
@@ -480,7 +696,11 @@ ALL_TR = ["L:kind-aimd", "L:kind-vegas", "L:step", "L:skip", "L:switch", "L:warm
           "A:result-ok", "A:result-err", "A:result-panic", "A:result-notready", "A:check-ready", "A:check-refused",
           "A:probe-ready-0", "A:probe-ready-1", "A:probe-in_flight-zero", "A:limit-up", "A:limit-down", "A:noop",
           "A:result-kept", "A:release-held", "A:probe-with-held",
-          "A:ready-although-held-fill-limit", "A:admitted-although-held-fill-limit"]
+          "A:ready-although-held-fill-limit", "A:admitted-although-held-fill-limit",
+          "A:handle-ready", "A:handle-refused", "A:handle-pending", "A:handle-error", "A:call-through-handle",
+          "A:result-notready-inner", "A:result-notready-error",
+          "A:handle-refused-after-inner-pending", "A:handle-ready-after-inner-pending",
+          "T:step", "T:skip", "T:switch", "T:refused", "T:two-releases-pending", "T:leftover-dropped"]
 
 LEVEL_NOTE = ("Trusted: Lean kernel; the transcription of aimd.rs / algorithm.rs (one model step per atomic operation, in program order) in "
               "TR.Model.Limit and of service.rs in TR.Model.Adaptive, validated only by the sampled correspondence check (the algorithms run the same "
@@ -489,7 +709,10 @@ LEVEL_NOTE = ("Trusted: Lean kernel; the transcription of aimd.rs / algorithm.rs
               "decrease factors (exact), EMA with smoothing 0.5 exact below 2^52, the Vegas queue estimate transcribed as exact binary64 "
               "round-to-nearest-even arithmetic in Nat (no theorem depends on it: the bounds hold for an arbitrary estimate); usize/u64 as unbounded "
               "Nat, configurations above 2^53 outside the model; the harness (baton scheduler, virtual clock, manual poller) and python diff/monitors. "
-              "poll_ready reserves nothing: what is proved about admission is the check itself, as the property states it.")
+              "poll_ready reserves nothing: what is proved about admission is the check itself, as the property states it. "
+              "Threads using clones of the service: one model step per yield point = per hooked atomic operation of service.rs (cargo feature "
+              "verif-hooks, notes/hooks-adaptive-service.diff) and of the algorithm, plus one explicit yield at the beginning of every thread "
+              "operation; the order in which an unpolled call future drops its inner future and its guard (inner future first) is observed, not derived.")
 
 SPECS = {
     "C13": {
@@ -512,7 +735,14 @@ SPECS = {
                 "alive (`arrive … keep=1`, in 0 / 25 / 50 / 80 / 100 % of the calls of a case, 40 % of those cases with a fixed limit 1..3) and let "
                 "go of it at any point (`release c`: while running, after completion, twice, never), with in_flight / limit / ready reads between "
                 "completion and release; ends with quiescence and a burst of arrivals up to and past the limit (long calls, or short kept calls "
-                "that each complete before the next arrives). distinct = distinct implementation log; non-trivial = an interleaving in which the schedule switches between "
+                "that each complete before the next arrives). Persistent handles over an inner service that is not ready at once (in 0 / 12 / 25 / 40 % "
+                "of the steps of a case): `manual ready h=1..3 rdy=r|p|e` = one poll_ready with the inner answer scripted per poll (handles that were "
+                "told `pending` are re-polled preferentially), `arrive c … h=<h> [rdy=…]` = a caller using that handle (call if its last poll said Ready, "
+                "else one poll_ready first), interleaved with other arrivals, completions and failures that move the limit. Rounds of 2-3 OS threads on "
+                "clones of the service under the baton scheduler (in 40 % of the cases, 60 % of those with limits 4..10): programs of acquire "
+                "(poll_ready+call; the call will succeed / fail / panic), complete-oldest, drop-oldest, in_flight(), direct feedback; schedules random / "
+                "turn by turn / runs, or all acquisitions first and then the releases turn by turn so that releases of different threads overlap; "
+                "`probe in_flight` after every round, also with nothing else running. distinct = distinct implementation log; non-trivial = an interleaving in which the schedule switches between "
                 "running threads (limit) / a refusal, a cancelled running call, a panic or an ahead-of-time check (service)",
         "level_text": "Theorems TR.Props.C13.{limit_in_bounds, limit_in_bounds_final, limit_in_bounds_rounds, limit_is_last_store, vegas_choice_arbitrary, "
                       "seq_limit_in_bounds, aimd_budget_controller_in_bounds}: for every configuration with min <= max and decrease factor <= 1, AIMD and "
@@ -525,6 +755,16 @@ SPECS = {
                       "drop_frees_slot, held_future_not_in_flight, letting_go_changes_nothing}: a call stops counting at the poll that observes its "
                       "completion / failure / panic, or when it is dropped - whether or not the caller keeps the finished future object alive; a held "
                       "finished future is not running, is not counted and does not block readiness; dropping it later changes nothing. "
+                      "{every_poll_exact, ready_handle_polled_below_limit, unready_poll_leaves_handle_not_ready, handle_refused_at_limit, "
+                      "handle_never_admitted_at_limit, handle_ready_below_limit}: over an inner service that is not ready at once every poll_ready of a "
+                      "persistent handle is refused iff limit calls are in flight at THAT poll (the capacity check is repeated at every poll, also after a "
+                      "poll that was only waiting for the inner service); a handle may call only on the strength of its most recent poll_ready, made below "
+                      "the limit. {turn_changes_counter_by_own_guards, threads_in_flight_exact, threads_in_flight_exact_final, threads_quiescent_zero, "
+                      "threads_in_flight_exact_within_history, threads_in_flight_matches_log, threads_limit_in_bounds}: clones on any number of threads, "
+                      "all programs, all schedules of the atomic steps (fetch_add at admission, fetch_sub at release): in_flight = number of live guards in "
+                      "every reachable state, 0 once no thread holds a call. "
+                      "TR.Mutants.AdaptiveSkipRecheck (capacity check only at a handle's first poll) and TR.Mutants.AdaptiveReleaseLoadStore (guard release "
+                      "as load+store: lost release under the schedule load,load,store,store) with kernel-checked witnesses (same file as AdaptiveNoGuard). "
                       "TR.Mutants.AdaptiveNoGuard: the pinned service (no guard) "
                       "with the kernel-checked witness (two calls dropped => in_flight = 2 and every readiness check refused, forever); "
                       "TR.Mutants.AdaptiveSlotAtDrop (same file): the guard owned by the future object (slot given back at drop, not at completion) "
@@ -532,13 +772,16 @@ SPECS = {
         "level_note": LEVEL_NOTE,
         "trusted": ["transcription of AimdController / Aimd / Vegas at atomic-operation granularity in TR.Model.Limit and of AdaptiveService in "
                     "TR.Model.Adaptive (sampled by the correspondence check: same schedule, same step/skip trace, same reads, same final limit)",
-                    "verif-hooks atomics: one yield point per atomic operation, compare_exchange_weak strong under the hook",
+                    "verif-hooks atomics: one yield point per atomic operation, compare_exchange_weak strong under the hook; service.rs takes "
+                    "its AtomicUsize (in_flight, current_limit) through the same cfg-gated alias (notes/hooks-adaptive-service.diff)",
                     "relaxed atomics as sequentially consistent per location",
                     "f64: dyadic decrease factors and power-of-two latencies make the arithmetic exact; Vegas queue estimate = exact binary64 "
                     "round-to-nearest-even transcription in Nat (Limit.queueEst), not used by any theorem",
                     "harness: baton scheduler, clock_gettime interposition, manual poller; python diff/monitors"],
         "assumptions": ["min_limit <= max_limit and decrease_factor in [0,1] (the property's quantifier; Rust's clamp panics for min > max)",
                         "usize/u64 modelled as unbounded Nat; values below 2^53",
-                        "one poll of one call future is atomic (single-threaded runtime) for the service; the inner service is always ready"],
+                        "one poll of one call future is atomic for the single-threaded callers; in the rounds of threads the yield points are the "
+                        "hooked atomic operations and the operation boundaries (thread-local code between two of them is atomic)",
+                        "the inner service's readiness answers are scripted per poll_ready (ready / pending with a wake-up / error)"],
     },
 }
